@@ -66,6 +66,12 @@ CLAIMED = {
   text="Three clauses each necessary for encode-then-decode to be the identity, for all values at once: SYM - the fields whose bits reach the wire equal the integer fields the decoder stores; LAY - encoder map composed with decoder map is the identity on every field bit that reaches the wire and every wire bit the decoder uses (fixed parts and per-entry strides) for 14 pairs; DSP - the (PT,FMT) each Marshal emits dispatches back to its own Go type (SliceLossIndication: open finding F10d); XR - setup/unpackBlockHeader invert each other on the type-specific octet. Necessary, not sufficient: variable-length parts, list equality and re-marshal byte equality need run-time values and are not covered.",
   note="Trusted: go/ssa, checker/bits, checker/pe, registry.",
   design="DESIGN.md §2 C02"),
+ "C09": dict(
+  level="other",
+  technique="static analysis: abstract interpretation of go/ssa (linear constraints + congruences) of every encoder on an unconstrained receiver, generating run-time-check obligations",
+  text="Decides one clause of the property, the one whose truth is in the shape of the code: 'marshalling the returned packets never panics'. Every packet type's Marshal, rtcp.Marshal and CompoundPacket.Marshal are analysed for EVERY receiver value with non-nil list elements and a re-encoded size of at most 65532 octets - a superset of what the decoders can return; all ~660 index, slice-bound (against the length), binary access, nil, division, type-assertion, make and loop obligations of the reachable universe must be entailed at the instruction; six obligation groups that need prefix-sum, disjunctive or floating-point reasoning are discharged by a frozen table of reasons confirmed by reading. NOT decided: that the new bytes are accepted again and decode to an equal packet list, and the TransportLayerCC consistency condition - these relate run-time values of two executions; a reader must not take this check as evidence of idempotence.",
+  note="Trusted: go/ssa, checker/num, checker/effects, c09Triaged (6 entries keyed by function and rule, each with its reason and required to match an undecided obligation). Above 65535 octets CCFeedbackReport.Marshal panics (uint16 buffer length) - outside the stated size domain.",
+  design="DESIGN.md §8 (C09 as built)"),
  "C08": dict(
   level="other",
   technique="static analysis: abstract interpretation of go/ssa (linear constraints, exact fixed-width wrap-around) of every encoder with per-call-string narrowing obligations and an error-discipline rule",
